@@ -76,6 +76,8 @@ type wfCase struct {
 	Rule   string         `json:"rule,omitempty"`
 }
 
+const wfMaxPerRule = 12
+
 type wfFound struct {
 	key  string
 	msg  string
@@ -89,12 +91,16 @@ type wfRun struct {
 	mu        sync.Mutex
 	found     map[string]wfFound
 	perRule   map[string]int
+	keysOfRule map[string][]string
 	unassert  map[string]int
 	samples   int
 	harness   int
 	functions atomic.Int64
 	instrs    atomic.Int64
 	nontriv   atomic.Int64
+
+	// hot counters (flushed into the result by finish)
+	cBlocks, cPhis, cSplit, cSplitFns, cSkipped, cUnreach, cCross, cRecover, cNoBody atomic.Int64
 
 	phaseEnd time.Time // deadline of the current phase (zero: none)
 }
@@ -105,7 +111,7 @@ func (r *wfRun) expired() bool {
 }
 
 func newWfRun(res *vx.Result) *wfRun {
-	return &wfRun{res: res, found: map[string]wfFound{}, perRule: map[string]int{}, unassert: map[string]int{}}
+	return &wfRun{res: res, found: map[string]wfFound{}, perRule: map[string]int{}, keysOfRule: map[string][]string{}, unassert: map[string]int{}}
 }
 
 func wfKeyPart(s string) string {
@@ -115,7 +121,7 @@ func wfKeyPart(s string) string {
 // checkOne runs the checker on fn and records the outcome. mk builds the replay case.
 func (r *wfRun) checkOne(fn *ir.Function, mode ir.BuilderMode, keyPrefix string, c wfCase, extra string) {
 	if len(fn.Blocks) == 0 {
-		r.res.Count("functions_without_body", 1)
+		r.cNoBody.Add(1)
 		return
 	}
 	var vs []wfViolation
@@ -141,23 +147,19 @@ func (r *wfRun) checkOne(fn *ir.Function, mode ir.BuilderMode, keyPrefix string,
 		r.res.Note("the two dominance algorithms of the checker disagree on %s: %s", fn.String(), st.DomMismatch)
 		r.res.NotExhaustive("checker self-check failed")
 	}
-	r.res.Count("blocks", int64(st.Blocks))
-	r.res.Count("phis", int64(st.Phis))
+	r.cBlocks.Add(int64(st.Blocks))
+	r.cPhis.Add(int64(st.Phis))
 	if st.SplitAllocs > 0 {
-		r.res.Count("split_allocs", int64(st.SplitAllocs))
-		r.res.Count("functions_with_split_alloc", 1)
+		r.cSplit.Add(int64(st.SplitAllocs))
+		r.cSplitFns.Add(1)
 	}
-	if st.Skipped > 0 {
-		r.res.Count("typing_rules_skipped_for_type_parameters", int64(st.Skipped))
-	}
-	if st.Unreachable > 0 {
-		r.res.Count("unreachable_blocks", int64(st.Unreachable))
-	}
+	r.cSkipped.Add(int64(st.Skipped))
+	r.cUnreach.Add(int64(st.Unreachable))
 	if st.DomSelfChecked {
-		r.res.Count("functions_with_dominance_cross_checked", 1)
+		r.cCross.Add(1)
 	}
 	if fn.Recover != nil {
-		r.res.Count("functions_with_recover_block", 1)
+		r.cRecover.Add(1)
 	}
 	if len(st.Unasserted) > 0 {
 		r.mu.Lock()
@@ -170,7 +172,7 @@ func (r *wfRun) checkOne(fn *ir.Function, mode ir.BuilderMode, keyPrefix string,
 		return
 	}
 	dump := ""
-	for i, v := range vs {
+	for _, v := range vs {
 		key := keyPrefix + ":" + v.Rule
 		cc := c
 		cc.Rule = v.Rule
@@ -178,14 +180,37 @@ func (r *wfRun) checkOne(fn *ir.Function, mode ir.BuilderMode, keyPrefix string,
 		r.mu.Lock()
 		r.perRule[v.Rule]++
 		prev, dup := r.found[key]
-		if !dup || int(mode) < int(prev.mode) {
-			if len(r.found) < 400 || dup {
-				if dump == "" && i == 0 {
-					dump = wfDump(fn, 6000)
+		keep := false
+		switch {
+		case dup:
+			keep = int(mode) < int(prev.mode) // the smallest mode in which the case fails is reported
+		case len(r.keysOfRule[v.Rule]) < wfMaxPerRule:
+			keep = true
+		default:
+			// the wfMaxPerRule smallest keys of each rule are kept (deterministic, and one frequent
+			// rule cannot crowd out the others)
+			ks := r.keysOfRule[v.Rule]
+			max := 0
+			for j := range ks {
+				if ks[j] > ks[max] {
+					max = j
 				}
-				r.found[key] = wfFound{key: key, mode: mode, c: cc,
-					msg: fmt.Sprintf("[%s] %s\nfunction %s, builder mode %s (%d)%s\n%s", v.Rule, v.Msg, fn.String(), wfModeName(mode), int(mode), extra, dump)}
 			}
+			if key < ks[max] {
+				delete(r.found, ks[max])
+				r.keysOfRule[v.Rule] = append(ks[:max], ks[max+1:]...)
+				keep = true
+			}
+		}
+		if keep {
+			if !dup {
+				r.keysOfRule[v.Rule] = append(r.keysOfRule[v.Rule], key)
+			}
+			if dump == "" {
+				dump = wfDump(fn, 6000)
+			}
+			r.found[key] = wfFound{key: key, mode: mode, c: cc,
+				msg: fmt.Sprintf("[%s] %s\nfunction %s, builder mode %s (%d)%s\n%s", v.Rule, v.Msg, fn.String(), wfModeName(mode), int(mode), extra, dump)}
 		}
 		r.mu.Unlock()
 	}
@@ -198,6 +223,17 @@ func (r *wfRun) finish() {
 	res.States = r.functions.Load()
 	res.Transitions = r.instrs.Load()
 	res.Validated = r.functions.Load()
+	for _, c := range []struct {
+		name string
+		v    *atomic.Int64
+	}{{"blocks", &r.cBlocks}, {"phis", &r.cPhis}, {"split_allocs", &r.cSplit}, {"functions_with_split_alloc", &r.cSplitFns},
+		{"typing_rules_skipped_for_type_parameters", &r.cSkipped}, {"unreachable_blocks", &r.cUnreach},
+		{"functions_with_dominance_cross_checked", &r.cCross}, {"functions_with_recover_block", &r.cRecover},
+		{"functions_without_body_external", &r.cNoBody}} {
+		if n := c.v.Load(); n > 0 {
+			res.Count(c.name, n)
+		}
+	}
 	var keys []string
 	for k := range r.found {
 		keys = append(keys, k)
@@ -604,6 +640,9 @@ func wfSelect(loaded []*packages.Package) (out []*packages.Package, skipped int,
 		if p.ID == p.PkgPath && hasVariant[p.PkgPath] {
 			continue
 		}
+		if len(p.Errors) == 0 && len(p.GoFiles)+len(p.CompiledGoFiles) == 0 {
+			continue // a directory with test files only: no package to build
+		}
 		if len(p.Errors) > 0 || p.IllTyped || p.Types == nil || p.TypesInfo == nil || len(p.Syntax) == 0 {
 			skipped++
 			w := p.ID + ": no syntax or types"
@@ -757,12 +796,27 @@ func (r *wfRun) checkCorpus(c *wfCorpus, modes []ir.BuilderMode, only func(pkg, 
 func (r *wfRun) corpora() {
 	res := r.res
 	modes := vx.Pick(wfModes4, wfModes16)
+	if v := os.Getenv("VERIF_C02_MODES"); v != "" { // development aid: comma-separated mode bit sets 0..15
+		modes = nil
+		for _, f := range strings.Split(v, ",") {
+			var k int
+			fmt.Sscanf(f, "%d", &k)
+			modes = append(modes, wfModes16[k&15])
+		}
+	}
+	want := func(c string) bool { // development aid: VERIF_C02_CORPORA=std,repo,td
+		v := os.Getenv("VERIF_C02_CORPORA")
+		return v == "" || strings.Contains(","+v+",", ","+c+",")
+	}
 	var wg sync.WaitGroup
 
 	// std
 	wg.Add(1)
 	go func() {
 		defer wg.Done()
+		if !want("std") {
+			return
+		}
 		t0 := time.Now()
 		c, err := wfLoadStd()
 		if err != nil {
@@ -786,7 +840,13 @@ func (r *wfRun) corpora() {
 	go func() {
 		defer wg.Done()
 		t0 := time.Now()
-		c, err := wfLoadRepo(true)
+		var c *wfCorpus
+		var err error
+		if want("repo") {
+			c, err = wfLoadRepo(true)
+		} else {
+			c = &wfCorpus{Name: "repo"}
+		}
 		if err != nil {
 			res.Note("loading the repository failed: %v", err)
 			res.NotExhaustive("repository not loaded")
@@ -802,6 +862,9 @@ func (r *wfRun) corpora() {
 			}
 		}
 		c = nil
+		if !want("td") {
+			return
+		}
 		dirs := wfTestdataDirs()
 		res.Count("testdata_modules_total", int64(len(dirs)))
 		if !vx.Thorough() {
